@@ -30,3 +30,8 @@ def main(tier, seed):
     return analysis_check("C09", tier, seed, items=items, want=["parsed", "term"], builders=[C.b_source, C.b_term],
                           N=6 if quick else 9, timeout=120, key_fn=key_fn,
                           assumptions=["the limit n -> infinity is not decided by the spec in this version; only the conditional sequence is"])
+
+
+def replay(path):
+    from ..driver import replay_analysis
+    return replay_analysis("C09", path, want=["parsed", "term"], builders=[C.b_source, C.b_term], N=6, key_fn=key_fn)
